@@ -452,10 +452,13 @@ def w23Violations (p : Pipeline) : List Violation :=
     x.1.nodes.flatMap fun nd =>
       if nodeLive p x.2 nd then [] else
       match nd with
-      | .sel alts => alts.flatMap fun a => match a with
-        | .send c _ => [{ rule := 2, g := x.1.name, c := p.ckey c }]
-        | .recv c _ _ => [{ rule := (if alts.length == 1 then 3 else 2), g := x.1.name, c := p.ckey c }]
-        | _ => []
+      | .sel alts =>
+        let vs := alts.flatMap fun a => match a with
+          | .send c _ => [{ rule := 2, g := x.1.name, c := p.ckey c : Violation }]
+          | .recv c _ _ => [{ rule := (if alts.length == 1 then 3 else 2), g := x.1.name, c := p.ckey c }]
+          | _ => []
+        -- a select that waits on nothing the pipeline controls (no channel, foreign context only)
+        if vs.isEmpty then [{ rule := 2, g := x.1.name, c := "" }] else vs
       | .wgWait w _ => if W5w p w then [{ rule := 3, g := x.1.name, c := p.wname w }] else []
       | _ => []
 
